@@ -6,7 +6,7 @@
    (C) `switch_entries`: every switch `sw` with case `b` occurring in the program has log entries
        `GStmt sw d _` and `GCase b (negb d) _`.
    Together with `ghost_sound` this gives `C11_case_sound_repaired` (SoundnessRepaired.v).
-   Holds for every combination of repairs. *)
+   (A) and (B) hold for every combination of repairs, (C) for those that visit the head of for-in/of (`fixE`). *)
 From V Require Import CF.AnalyzerG CF.SoundnessInv CF.SoundnessMap CF.Semantics.
 From Coq Require Import Lia.
 
@@ -168,6 +168,41 @@ Proof.
   intros H Hp Hpb x Hf. pose proof (cok_fn p pb g K H Hp Hpb x Hf) as HC.
   destruct (fn_likeG fx p pb g x) as [[y r] lg]. cbn [g_st g_lg fst snd] in *.
   eapply claims_info; [exact HC | apply info_visit_lit].
+Qed.
+
+Lemma cok_fn_expr fp pb g K : cokl g (SL K) K -> ~ In fp (pb :: K) -> ~ In pb K ->
+  cokc (fn_exprG fx fp pb g) (SK (fp :: pb :: K) fp) (fp :: pb :: K).
+Proof.
+  intros H Hp Hpb x Hf. pose proof (cok_fn fp pb g K H Hp Hpb x Hf) as HC. unfold fn_exprG.
+  destruct (fn_likeG fx fp pb g x) as [[y r] lg]. cbn [g_st g_lg fst snd] in *.
+  eapply claims_info; [exact HC | apply info_visit_lit].
+Qed.
+
+Lemma cok_for_head fp pb g K : cokl g (SL K) K -> ~ In fp (pb :: K) -> ~ In pb K ->
+  cokc (for_headG fx fp pb g) (SK (fp :: pb :: K) fp) (fp :: pb :: K).
+Proof.
+  intros H Hp Hpb. unfold for_headG. destruct (fixE fx); [apply cok_fn_expr; assumption | intros x _; apply claims_nil].
+Qed.
+
+Lemma cokc_up g (S S' : N -> Prop) K K' : cokc g S K -> incl K K' -> (forall k, S k -> S' k) -> cokc g S' K'.
+Proof. intros H Hi Hs x Hf. eapply claims_weak; [apply H; eapply fresh_incl; [exact Hf | exact Hi] | exact Hs]. Qed.
+
+(* the head of a loop, then the loop *)
+Lemma cok_seq g1 g2 (S1 S2 S : N -> Prop) K1 K2 K :
+  cokc g1 S1 K1 -> cokc g2 S2 K2 -> frc g1 K1 -> frc g2 K2 ->
+  (forall k, In k K1 -> ~ In k K2) -> incl K1 K -> incl K2 K ->
+  (forall k, S1 k -> In k K1) -> (forall k, S1 k -> S k) -> (forall k, S2 k -> S k) ->
+  cokc (seqG g1 g2) S K.
+Proof.
+  intros H1 H2 F1 F2 Hd I1 I2 HS1 W1 W2 x Hf. unfold seqG.
+  assert (Hf1 : fresh x K1) by (eapply fresh_incl; [exact Hf | exact I1]).
+  specialize (H1 x Hf1). specialize (F1 x Hf1). destruct (g1 x) as [[y r1] lg1]. cbn [g_st g_lg fst snd] in *.
+  assert (Hf2 : fresh y K2).
+  { eapply fresh_frame; [|exact F1 | intros k Hk Hk'; exact (Hd k Hk' Hk)]. eapply fresh_incl; [exact Hf | exact I2]. }
+  specialize (H2 y Hf2). specialize (F2 y Hf2). destruct (g2 y) as [[z r] lg2]. cbn [g_st g_lg fst snd] in *.
+  apply claims_app.
+  - eapply claims_weak; [eapply claims_frame; [exact H1 | exact F2 | intros k Hk; apply Hd, HS1; exact Hk] | exact W1].
+  - eapply claims_weak; [exact H2 | exact W2].
 Qed.
 
 Lemma cok_if p c p1 g1 K1 : cokc g1 (SK K1 p1) K1 -> ~ In p K1 ->
@@ -513,6 +548,11 @@ Proof.
   - intros p pb b IHb Hn. cbn [keys] in Hn. destruct (NoDup_cons_inv _ _ Hn) as [Hp Hn']. destruct (NoDup_cons_inv _ _ Hn') as [Hpb Hnb].
     wrapc (SArrowStmt p pb b) (fun x => let '(y, r, lg) := fn_likeG fx p pb (anG_list fx b) x in (visit_lit y, r, lg)).
     apply cok_arrow; [apply IHb; exact Hnb | exact Hp | exact Hpb].
+  - intros p gp pb b IHb Hn. cbn [keys] in Hn. destruct (NoDup_cons_inv _ _ Hn) as [Hp Hn']. destruct (NoDup_cons_inv _ _ Hn') as [Hgp Hn''].
+    destruct (NoDup_cons_inv _ _ Hn'') as [Hpb Hnb].
+    wrapc (SGetterStmt p gp pb b) (fn_exprG fx gp pb (anG_list fx b)).
+    apply (cokc_up _ (SK (gp :: pb :: keys_l b) gp) _ (gp :: pb :: keys_l b)); [apply cok_fn_expr; [apply IHb; exact Hnb | exact Hgp | exact Hpb] | apply incl_tl, incl_refl|].
+    cbn [keys pos]. apply SK_up; [apply incl_tl, incl_refl | exact Hp].
   - intros p a Hn. leafc (SRet p a) (fun x => let '(y, r) := visit_returnG p a x in (y, r, @nil gent)).
   - intros p e Hn. leafc (SThrow p e) (fun x => let '(y, r) := visit_throwG fx p e x in (y, r, @nil gent)).
   - intros p l Hn. leafc (SBrk p l) (fun x => (visit_break fx l x, @None End, @nil gent)).
@@ -534,6 +574,24 @@ Proof.
     wrapc (SForIn p b) (visit_for_inG fx (pos b) (anG fx b)). apply cok_for_in; [apply IHb; exact Hnb | apply pos_in_keys | exact Hp].
   - intros p b IHb Hn. cbn [keys] in Hn. destruct (NoDup_cons_inv _ _ Hn) as [Hp Hnb].
     wrapc (SForOf p b) (visit_for_inG fx (pos b) (anG fx b)). apply cok_for_in; [apply IHb; exact Hnb | apply pos_in_keys | exact Hp].
+  - intros p g fp pb hb IHh b IHb Hn. cbn [keys] in Hn. destruct (NoDup_cons_inv _ _ Hn) as [Hp Hn'].
+    destruct (NoDup_app_inv _ _ Hn') as [Hnh [Hnb Hd]].
+    destruct (NoDup_cons_inv _ _ Hnh) as [Hfp Hnh']. destruct (NoDup_cons_inv _ _ Hnh') as [Hpb Hnhb].
+    assert (Hpb' : ~ In p (keys b)) by (intros Hk; apply Hp; apply in_or_app; right; exact Hk).
+    destruct (an_anG fx) as [HS [HL _]].
+    wrapc (SForHead p g fp pb hb b) (seqG (for_headG fx fp pb (anG_list fx hb)) (visit_for_inG fx (pos b) (anG fx b))).
+    cbn [keys pos].
+    apply (cok_seq _ _ (SK (fp :: pb :: keys_l hb) fp) (SK (p :: keys b) p) _ (fp :: pb :: keys_l hb) (p :: keys b)).
+    + apply cok_for_head; [apply IHh; exact Hnhb | exact Hfp | exact Hpb].
+    + apply cok_for_in; [apply IHb; exact Hnb | apply pos_in_keys | exact Hpb'].
+    + intros x Hf. apply (sim0_for_head fx fp pb _ _ _ (HL hb Hnhb) Hfp x Hf).
+    + intros x Hf. apply (sim_for_in fx p (pos b) _ _ _ (HS b Hnb) (pos_in_keys b) Hpb' x Hf).
+    + intros k Hk [<- | Hk']; [apply Hp; apply in_or_app; left; exact Hk | exact (Hd k Hk Hk')].
+    + intros k Hk. right. apply in_or_app. left. exact Hk.
+    + intros k [<- | Hk]; [left; reflexivity | right; apply in_or_app; right; exact Hk].
+    + intros k [Hk _]. exact Hk.
+    + intros k [Hk _]. split; [right; apply in_or_app; left; exact Hk | intros ->; apply Hp; apply in_or_app; left; exact Hk].
+    + intros k [[<- | Hk] Hne]; [contradiction Hne; reflexivity|]. split; [right; apply in_or_app; right; exact Hk | exact Hne].
   - intros p cs IHc Hn. cbn [keys] in Hn. destruct (NoDup_cons_inv _ _ Hn) as [Hp Hnc].
     wrapc (SSwitch p cs) (visit_switchG p cs (anG_cases fx cs)). apply cok_switch; [apply IHc; exact Hnc | exact Hp].
   - intros p l b IHb Hn. cbn [keys] in Hn. destruct (NoDup_cons_inv _ _ Hn) as [Hp Hnb].
@@ -596,6 +654,10 @@ Lemma lg_fn p pb g x : g_lg (fn_likeG fx p pb g x) = l_lg (g (child_enter KFunct
 Proof. unfold fn_likeG, block_endG. destruct (g (child_enter KFunction x)) as [[c tops] lg]. reflexivity. Qed.
 Lemma lg_arrow p pb g x : g_lg (let '(y, r, lg) := fn_likeG fx p pb g x in (visit_lit y, r, lg)) = l_lg (g (child_enter KFunction x)).
 Proof. rewrite <- (lg_fn p pb g x). destruct (fn_likeG fx p pb g x) as [[y r] lg]. reflexivity. Qed.
+Lemma lg_fn_expr fp pb g x : g_lg (fn_exprG fx fp pb g x) = l_lg (g (child_enter KFunction x)).
+Proof. unfold fn_exprG. rewrite <- (lg_fn fp pb g x). destruct (fn_likeG fx fp pb g x) as [[y r] lg]. reflexivity. Qed.
+Lemma lg_seq g1 g2 x : exists y, g_lg (seqG g1 g2 x) = g_lg (g1 x) ++ g_lg (g2 y).
+Proof. unfold seqG. destruct (g1 x) as [[y r1] lg1]. exists y. destruct (g2 y) as [[z r] lg2]. reflexivity. Qed.
 Lemma lg_if p c p1 g1 x : g_lg (visit_ifG fx p c p1 g1 x) = g_lg (g1 (child_enter KIf (visit_cond c x))).
 Proof. unfold visit_ifG. rewrite <- (lg_with_child KIf p1 g1 (visit_cond c x)). destruct (with_childG fx KIf p1 g1 (visit_cond c x)) as [[y r] lg]. reflexivity. Qed.
 Lemma lg_if_else p c p1 g1 p2 g2 x :
@@ -678,22 +740,29 @@ Lemma lg_case cp b g y : exists stops, g_lg (visit_caseG fx cp b g y) = GCase b 
 Proof. unfold visit_caseG. destruct (g (child_enter KCase y)) as [[c tops] lg]. exists (tops_stop tops). reflexivity. Qed.
 
 Lemma lg_loop s pre b post : loop_shape s = Some (pre, b, post) ->
-  forall x, exists y, g_lg (anG fx s x) = GStmt (pos s) (dead_now x) (stmt_unreachable s x) :: g_lg (anG fx b y).
+  forall x, exists y hd, g_lg (anG fx s x) = GStmt (pos s) (dead_now x) (stmt_unreachable s x) :: hd ++ g_lg (anG fx b y).
 Proof.
   intros Hs x.
-  destruct s as [ | | | | | | | | | | | |p0 c0 b0|p0 b0 c0|p0 c0 b0|p0 b0|p0 b0| | | ]; cbn [loop_shape] in Hs; try discriminate.
+  destruct s as [ | | | | | | | | | | | | |p0 c0 b0|p0 b0 c0|p0 c0 b0|p0 b0|p0 b0|p0 g0 fp0 pb0 hb0 b0| | | ]; cbn [loop_shape] in Hs; try discriminate.
   - injection Hs as _ <- _. change (anG fx (SWhile p0 c0 b0) x) with (wrap (SWhile p0 c0 b0) (visit_whileG fx c0 (pos b0) (anG fx b0)) x).
-    rewrite lg_wrap, lg_while. eexists. reflexivity.
+    rewrite lg_wrap, lg_while. eexists. exists []. reflexivity.
   - injection Hs as _ <- _. change (anG fx (SDoWhile p0 b0 c0) x) with (wrap (SDoWhile p0 b0 c0) (visit_do_whileG fx p0 c0 (pos b0) (anG fx b0)) x).
-    rewrite lg_wrap, lg_do_while. eexists. reflexivity.
+    rewrite lg_wrap, lg_do_while. eexists. exists []. reflexivity.
   - assert (Hb : b0 = b) by (destruct c0; injection Hs as _ Hb _; exact Hb). subst b.
     change (anG fx (SFor p0 c0 b0) x) with (wrap (SFor p0 c0 b0) (visit_forG fx p0 c0 (pos b0) (anG fx b0)) x).
     rewrite lg_wrap. destruct (lg_for p0 c0 (pos b0) (anG fx b0) (set_unreach (pos (SFor p0 c0 b0)) (stmt_unreachable (SFor p0 c0 b0) x) x)) as [y Eq].
-    rewrite Eq. eexists. reflexivity.
+    rewrite Eq. eexists. exists []. reflexivity.
   - injection Hs as _ <- _. change (anG fx (SForIn p0 b0) x) with (wrap (SForIn p0 b0) (visit_for_inG fx (pos b0) (anG fx b0)) x).
-    rewrite lg_wrap, lg_for_in. eexists. reflexivity.
+    rewrite lg_wrap, lg_for_in. eexists. exists []. reflexivity.
   - injection Hs as _ <- _. change (anG fx (SForOf p0 b0) x) with (wrap (SForOf p0 b0) (visit_for_inG fx (pos b0) (anG fx b0)) x).
-    rewrite lg_wrap, lg_for_in. eexists. reflexivity.
+    rewrite lg_wrap, lg_for_in. eexists. exists []. reflexivity.
+  - injection Hs as _ <- _.
+    change (anG fx (SForHead p0 g0 fp0 pb0 hb0 b0) x)
+      with (wrap (SForHead p0 g0 fp0 pb0 hb0 b0) (seqG (for_headG fx fp0 pb0 (anG_list fx hb0)) (visit_for_inG fx (pos b0) (anG fx b0))) x).
+    rewrite lg_wrap.
+    destruct (lg_seq (for_headG fx fp0 pb0 (anG_list fx hb0)) (visit_for_inG fx (pos b0) (anG fx b0))
+                (set_unreach (pos (SForHead p0 g0 fp0 pb0 hb0 b0)) (stmt_unreachable (SForHead p0 g0 fp0 pb0 hb0 b0) x) x)) as [y Eq].
+    rewrite Eq, lg_for_in. eexists. eexists. reflexivity.
 Qed.
 
 Scheme sub_stmt_mind := Minimality for sub_stmt Sort Prop
@@ -704,6 +773,9 @@ Combined Scheme sub_mutind from sub_stmt_mind, sub_stmts_mind, sub_cases_mind.
 Lemma entries_wrap s V sw cs x0 :
   has_entries (g_lg (V (set_unreach (pos s) (stmt_unreachable s x0) x0))) sw cs -> has_entries (g_lg (wrap s V x0)) sw cs.
 Proof. intros H. rewrite lg_wrap. eapply has_entries_incl; [exact H | apply incl_tl, incl_refl]. Qed.
+
+(* from here on: the head of a for-in/of is visited *)
+Hypothesis HE : fixE fx = true.
 
 Theorem switch_entries :
   (forall t s, sub_stmt t s -> forall sw cs, t = SSwitch sw cs -> forall x, has_entries (g_lg (anG fx s x)) sw cs) /\
@@ -721,6 +793,17 @@ Proof.
   - intros t p pb b _ IH sw cs E x.
     change (anG fx (SArrowStmt p pb b) x) with (wrap (SArrowStmt p pb b) (fun x => let '(y, r, lg) := fn_likeG fx p pb (anG_list fx b) x in (visit_lit y, r, lg)) x).
     apply entries_wrap. rewrite lg_arrow. apply (IH sw cs E).
+  - intros t p gp pb b _ IH sw cs E x.
+    change (anG fx (SGetterStmt p gp pb b) x) with (wrap (SGetterStmt p gp pb b) (fn_exprG fx gp pb (anG_list fx b)) x).
+    apply entries_wrap. rewrite lg_fn_expr. apply (IH sw cs E).
+  - intros t p g fp pb hb b _ IH sw cs E x.
+    change (anG fx (SForHead p g fp pb hb b) x)
+      with (wrap (SForHead p g fp pb hb b) (seqG (for_headG fx fp pb (anG_list fx hb)) (visit_for_inG fx (pos b) (anG fx b))) x).
+    apply entries_wrap.
+    destruct (lg_seq (for_headG fx fp pb (anG_list fx hb)) (visit_for_inG fx (pos b) (anG fx b))
+                (set_unreach (pos (SForHead p g fp pb hb b)) (stmt_unreachable (SForHead p g fp pb hb b) x) x)) as [y Eq].
+    rewrite Eq. unfold for_headG. rewrite HE, lg_fn_expr.
+    eapply has_entries_incl; [apply (IH sw cs E) | apply incl_appl, incl_refl].
   - intros t p b _ IH sw cs E x. change (anG fx (SBlock p b) x) with (wrap (SBlock p b) (fun a => block_endG p (anG_list fx b a)) x).
     apply entries_wrap. rewrite lg_block_end. apply (IH sw cs E).
   - intros t p c a _ IH sw cs E x. change (anG fx (SIf p c a) x) with (wrap (SIf p c a) (visit_ifG fx p c (pos a) (fun y => orbG a (anG fx a y))) x).
@@ -734,8 +817,8 @@ Proof.
     apply entries_wrap. destruct (lg_if_else p c (pos a) (fun y => orbG a (anG fx a y)) (pos b) (fun y => orbG b (anG fx b y)) (set_unreach (pos (SIfElse p c a b)) (stmt_unreachable (SIfElse p c a b) x) x)) as [y2 Eq].
     rewrite Eq, !lg_orbG. eapply has_entries_incl; [apply (IH sw cs E) | apply incl_appr, incl_refl].
   - (* loops *)
-    intros t s pre b post Hs _ IH sw cs E x. destruct (lg_loop s pre b post Hs x) as [y Eq]. rewrite Eq.
-    eapply has_entries_incl; [apply (IH sw cs E) | apply incl_tl, incl_refl].
+    intros t s pre b post Hs _ IH sw cs E x. destruct (lg_loop s pre b post Hs x) as [y [hd Eq]]. rewrite Eq.
+    eapply has_entries_incl; [apply (IH sw cs E) | apply incl_tl, incl_appr, incl_refl].
   - intros t p cs0 _ IH sw cs E x. change (anG fx (SSwitch p cs0) x) with (wrap (SSwitch p cs0) (visit_switchG p cs0 (anG_cases fx cs0)) x).
     apply entries_wrap. rewrite lg_switch. apply (IH sw cs E).
   - intros t p l b _ IH sw cs E x.
